@@ -3150,6 +3150,19 @@ _dbus_poll (DBusPollFD *fds,
       timeout_milliseconds = -1;
     }
 
+#ifdef DBUS_VERIF_HOOKS
+  if (_dbus_verif_clock_active)
+    {
+      /* never block: a poll that would wait T ms waits 0 and, if nothing
+       * is ready, lets T ms of virtual time pass */
+      int verif_ready = poll (fds, n_fds, 0);
+
+      if (verif_ready == 0 && timeout_milliseconds > 0)
+        _dbus_verif_clock_advance_ms (timeout_milliseconds);
+      return verif_ready;
+    }
+#endif
+
   return poll (fds,
                n_fds,
                timeout_milliseconds);
@@ -3216,10 +3229,47 @@ _dbus_poll (DBusPollFD *fds,
  * @param tv_sec return location for number of seconds
  * @param tv_usec return location for number of microseconds
  */
+#ifdef DBUS_VERIF_HOOKS
+/* Verification hook: a virtual monotonic clock owned by the test harness. */
+int _dbus_verif_clock_active = 0;
+static long _dbus_verif_clock_sec = 0;
+static long _dbus_verif_clock_usec = 0;
+
+void
+_dbus_verif_clock_set (int active, long sec, long usec)
+{
+  _dbus_verif_clock_active = active;
+  _dbus_verif_clock_sec = sec;
+  _dbus_verif_clock_usec = usec;
+}
+
+void
+_dbus_verif_clock_advance_ms (long ms)
+{
+  _dbus_verif_clock_sec += ms / 1000;
+  _dbus_verif_clock_usec += (ms % 1000) * 1000;
+  if (_dbus_verif_clock_usec >= 1000000)
+    {
+      _dbus_verif_clock_sec += 1;
+      _dbus_verif_clock_usec -= 1000000;
+    }
+}
+#endif
+
 void
 _dbus_get_monotonic_time (long *tv_sec,
                           long *tv_usec)
 {
+#ifdef DBUS_VERIF_HOOKS
+  if (_dbus_verif_clock_active)
+    {
+      if (tv_sec)
+        *tv_sec = _dbus_verif_clock_sec;
+      if (tv_usec)
+        *tv_usec = _dbus_verif_clock_usec;
+      return;
+    }
+#endif
 #ifdef HAVE_MONOTONIC_CLOCK
   struct timespec ts;
   clock_gettime (CLOCK_MONOTONIC, &ts);
